@@ -247,70 +247,104 @@ Theorem C10_dispatch_over_wire_only_under : forall k ops r lg p s n h,
 Proof. exact dispatch_wire_only_under. Qed.
 Print Assumptions C10_dispatch_over_wire_only_under.
 
-(* ... outside httproto the name that arrives is a prefix of the one asked for, and the
-   whole of it except over the two json protocols ... *)
-Theorem C10_wire_seen_prefix : forall p s n n',
-  p <> PHttp -> wire p s n = WSeen n' ->
-  (exists t, n = n' ++ t) /\ (p <> PJson -> p <> PWsJson -> n' = n).
-Proof. exact wire_seen_prefix. Qed.
-Print Assumptions C10_wire_seen_prefix.
+(* ... outside httproto the name that arrives IS the name asked for, whatever its bytes
+   (protobuf: bytes < 0x80 in this model) ... *)
+Theorem C10_wire_seen_same : forall p s n n',
+  p <> PHttp -> wire p s n = WSeen n' -> n' = n.
+Proof. exact wire_seen_same. Qed.
+Print Assumptions C10_wire_seen_same.
 
-(* ... hence over raw, protobuf, thrift and websocket-protobuf, for ALL names: the handler
-   runs only under a name its registration returned. *)
+(* ... hence over raw, json, protobuf, thrift and both websocket sub-protocols, for ALL names:
+   the handler runs only under a name its registration returned. *)
 Theorem C10_dispatch_wire_transparent : forall k ops r lg p s n h,
   run k init ops = Ok (r, lg) ->
-  p <> PHttp -> p <> PJson -> p <> PWsJson ->
+  p <> PHttp ->
   dispatch_wire p r s n = WDispatched (DRun h false) -> In (s, h, n) (returned_log k ops).
 Proof. exact dispatch_wire_transparent. Qed.
 Print Assumptions C10_dispatch_wire_transparent.
 
-(* json (strconv.Quote, then gjson's un-escaping), names of bytes < 0x80: what arrives is
-   the name up to its first byte that Quote writes as \a, \v or \xNN (control bytes other
-   than \b \t \n \f \r, and 0x7f); a name without such a byte arrives whole. *)
-Theorem C10_json_wire : forall n,
-  ascii_only n = true ->
-  wire PJson CALL n = WSeen (take_while json_ok n) /\
-  (forallb json_ok n = true -> wire PJson CALL n = WSeen n).
-Proof. exact (fun n A => conj (wire_json_eq n A) (wire_json_exact n A)). Qed.
+(* json (escapeBody, then gjson's un-escaping; repaired by 7ef806c): EVERY byte string
+   arrives as it was asked for, over jsonproto and over the websocket json sub-protocol. *)
+Theorem C10_json_wire : forall s n,
+  wire PJson s n = WSeen n /\ wire PWsJson s n = WSeen n.
+Proof. exact (fun s n => conj (wire_json_exact n) (wire_json_exact n)). Qed.
 Print Assumptions C10_json_wire.
 
-(* REFUTED for json with such a byte (finding key json-name-truncated): "/test" + NUL is not
-   registered, the router alone answers Not Found, yet over jsonproto and the websocket
-   json sub-protocol the handler registered as "/test" runs. *)
+(* the code BEFORE that repair (strconv.Quote / %q), names of bytes < 0x80: what arrived was
+   the name up to its first byte that Quote writes as \a, \v or \xNN ... *)
+Theorem C10_json_wire_prefix : forall n,
+  ascii_only n = true -> wire_json_prefix n = WSeen (take_while json_ok n).
+Proof. exact wire_json_prefix_eq. Qed.
+Print Assumptions C10_json_wire_prefix.
+
+(* ... REFUTED for that code (fixed: json-name-truncated): "/test" + NUL is not registered, the
+   router alone answers Not Found, yet over both json protocols the handler registered as
+   "/test" ran; on the repaired code the same request is Not Found. *)
 Theorem C10_json_name_truncated_refuted :
   exists ops r lg h n,
     run MHTTP init ops = Ok (r, lg) /\ ascii_only n = true /\
     (forall h', ~ In (CALL, h', n) (returned_log MHTTP ops)) /\
     dispatch r CALL n = DNotFound /\
-    dispatch_wire PJson r CALL n = WDispatched (DRun h false) /\
-    dispatch_wire PWsJson r CALL n = WDispatched (DRun h false).
-Proof. exact json_name_truncated. Qed.
+    dispatch_wire_prefix PJson r CALL n = WDispatched (DRun h false) /\
+    dispatch_wire_prefix PWsJson r CALL n = WDispatched (DRun h false) /\
+    dispatch_wire PJson r CALL n = WDispatched DNotFound /\
+    dispatch_wire PWsJson r CALL n = WDispatched DNotFound.
+Proof. exact json_name_truncated_prefix. Qed.
 Print Assumptions C10_json_name_truncated_refuted.
 
-(* httproto reads the caller's string as a URI reference (README: "POST /home/test?peer_id=110").
-   When the path of that reference holds no control byte, blank, '?', '#', '%' or ':' and does
+(* httproto reads the caller's string as a URI reference (README: "POST /home/test?peer_id=110")
+   and writes u.EscapedPath() into the request line.  When that is the path itself (nothing
+   in it needs an escape), the path holds no control byte, blank, '?', '#', '%' or ':' and does
    not begin with "//", and the raw query brings no control byte or '#', the serving peer
    looks up exactly that path. *)
-Theorem C10_http_wire_uri_path : forall n p q,
-  ascii_only n = true -> url_parse n = UOk p q ->
+Theorem C10_http_wire_uri_path : forall n p rp q,
+  ascii_only n = true -> url_parse_x n = XOk p rp q -> escaped_path p rp = p ->
   target_safe p = true -> query_safe q = true ->
   wire PHttp CALL n = WSeen p.
-Proof. exact wire_http_uri_path. Qed.
+Proof. exact (wire_http_gen_uri_path escaped_path). Qed.
 Print Assumptions C10_http_wire_uri_path.
 
-(* REFUTED without the guard on the path (finding key http-target-not-escaped): packRequest
-   writes the UNESCAPED path into the request line; "/test%3fx" asks for the path "/test?x",
-   which is not registered, and the handler registered as "/test" runs; "/test%25" ends the
-   session. *)
+(* The inputs recorded with finding http-target-not-escaped, on the repaired code: the path
+   of the URI reference arrives (escaped '?', '#', blank, '%', doubly escaped bytes, even an
+   escaped CR LF) - FINITE list, by computation. *)
+Theorem C10_http_repaired_inputs :
+  Forall (fun np => url_parse (fst np) = UOk (snd np) [] /\ wire PHttp CALL (fst np) = WSeen (snd np))
+    [(str "/test%3fx", str "/test?x"); (str "/test%23x", str "/test#x"); (str "/test%20x", str "/test x");
+     (str "/%2574est", str "/%74est"); (str "/test%25", str "/test%"); (str "/test x", str "/test x");
+     (str "/test%0d%0aX-Y: z", str "/test" ++ [n2b 13; n2b 10] ++ str "X-Y: z")].
+Proof. exact http_repaired_inputs. Qed.
+Print Assumptions C10_http_repaired_inputs.
+
+(* REFUTED for the code before the repair (fixed: http-target-not-escaped, packRequest wrote
+   the UNESCAPED path): "/test%3fx" asks for the path "/test?x", which is not registered, and
+   the handler registered as "/test" ran; "/test%25" ended the session.  On the repaired code
+   the path arrives and is Not Found. *)
 Theorem C10_http_target_not_escaped_refuted :
   (exists ops r lg h n path q,
     run MHTTP init ops = Ok (r, lg) /\ ascii_only n = true /\ url_parse n = UOk path q /\
     (forall h', ~ In (CALL, h', path) (returned_log MHTTP ops)) /\
     dispatch r CALL path = DNotFound /\
-    dispatch_wire PHttp r CALL n = WDispatched (DRun h false)) /\
-  (url_parse (str "/test%25") = UOk (str "/test%") [] /\ wire PHttp CALL (str "/test%25") = WBroken).
-Proof. exact (conj http_target_not_escaped http_target_breaks_session). Qed.
+    dispatch_wire_prefix PHttp r CALL n = WDispatched (DRun h false) /\
+    wire PHttp CALL n = WSeen path /\ dispatch_wire PHttp r CALL n = WDispatched DNotFound) /\
+  (url_parse (str "/test%25") = UOk (str "/test%") [] /\
+   wire_prefix PHttp CALL (str "/test%25") = WBroken /\
+   wire PHttp CALL (str "/test%25") = WSeen (str "/test%")).
+Proof. exact (conj http_target_not_escaped_prefix http_target_breaks_session_prefix). Qed.
 Print Assumptions C10_http_target_not_escaped_refuted.
+
+(* REFUTED, still, for the residue (finding http-target-not-escaped as narrowed): a caller's
+   string whose raw path is not a valid encoding makes EscapedPath fall back to the default
+   escaping of the path, which leaves a ':' in a rootless first segment (and a leading "//")
+   raw.  "a%3ab c" asks for the path "a:b c"; the receiver reads a scheme, looks up the empty
+   name and answers 400; "a%3ab" alone is carried; "%2f/a b" reads as an authority. *)
+Theorem C10_http_escaped_path_residue_refuted :
+  url_parse (str "a%3ab c") = UOk (str "a:b c") [] /\
+  wire PHttp CALL (str "a%3ab c") = WSeen [] /\
+  (forall r, dispatch_wire PHttp r CALL (str "a%3ab c") = WDispatched DBadMessage) /\
+  wire PHttp CALL (str "a%3ab") = WSeen (str "a:b") /\
+  wire PHttp CALL (str "%2f/a b") = WOutside.
+Proof. exact http_escaped_path_residue. Qed.
+Print Assumptions C10_http_escaped_path_residue_refuted.
 
 (* REFUTED for a receiver that normalises the path it read (path.Clean in Unpack): the plain
    names "/test/", "/./test", "/x/../test", "/test/." were returned by no registration and
@@ -390,11 +424,13 @@ Proof. exact mapper_not_injective. Qed.
    has an authority part and is outside the model *)
 Example C10_example_http_uri :
   let n := str "/home/test?peer_id=110" in
-  ascii_only n = true /\ url_parse n = UOk (str "/home/test") (str "peer_id=110") /\
+  ascii_only n = true /\
+  url_parse_x n = XOk (str "/home/test") (Some (str "/home/test")) (str "peer_id=110") /\
+  escaped_path (str "/home/test") (Some (str "/home/test")) = str "/home/test" /\
   target_safe (str "/home/test") = true /\ query_safe (str "peer_id=110") = true /\
   wire PHttp CALL n = WSeen (str "/home/test") /\
   wire PHttp CALL (str "http://localhost:9090/home/test?peer_id=110") = WOutside.
-Proof. exact http_uri_example. Qed.
+Proof. vm_compute. repeat split. Qed.
 
 (* the premises of C10_http_returned_names_reachable_over_wire hold of the example sequence *)
 Example C10_example_plain_ops :
